@@ -111,9 +111,9 @@ def assignSlots (g : Graph) (ms : List MethodC) : SlotSt :=
   let roots := (List.range g.n).filter (fun c => (g.direct.get c).isEmpty)
   let step := fun (sv : SlotSt × List Nat) (r : Nat) =>
     if (g.cov.get r).all (fun c => (g.direct.get c).length ≤ 1) then
-      (treeSlots g ms (g.n + 1) r 0 sv.1, sv.2)
+      (treeSlots g ms g.fuel r 0 sv.1, sv.2)
     else
-      let vis := latticeOrder g.derived.get (g.n + 1) r sv.2
+      let vis := latticeOrder g.derived.get g.fuel r sv.2
       let newly := vis.drop sv.2.length
       (newly.foldl (allocClass g ms) sv.1, vis)
   let st := (roots.foldl step (SlotSt.init, [])).1
